@@ -119,6 +119,7 @@ def parse_terms(body):
         return None
     terms = re.findall(r"[+-]?[^+-]+", body)
     regs = {}
+    base = None      # the first register written without a scale: both references and miasmX print the base before the index
     disp = 0
     for t in terms:
         sign = -1 if t.startswith("-") else 1
@@ -134,12 +135,18 @@ def parse_terms(body):
             regs[r] = regs.get(r, 0) + sign * sc
         elif parse_reg(t):
             regs[parse_reg(t)] = regs.get(parse_reg(t), 0) + sign
+            if base is None:
+                base = parse_reg(t)
         else:
             v = num(t)
             if v is None:
                 return None
             disp += sign * v
     regs.pop("eiz", None)
+    # the default segment is ss when the *base* is ebp / esp (32-bit shapes) or when bp takes part (16-bit shapes); the sum of the
+    # terms alone cannot tell [ebp+eax] from [eax+ebp], nor [ebp+ebp*1] from [ebp*2]: the fact is kept as a marker of its own
+    if base in ("ebp", "esp") or "bp" in regs:
+        regs["@stack-base"] = 1
     return frozenset((r, s) for r, s in regs.items() if s), disp
 
 
@@ -280,16 +287,15 @@ def is_string_mem(o):
     return len(regs) == 1 and regs[0] in ("esi", "edi", "si", "di") and o[4] == 0
 
 
+def plain_regs(rs):
+    """register/scale pairs without the default-segment marker"""
+    return frozenset(p for p in rs if not p[0].startswith("@"))
+
+
 def eff_seg(o):
     if o[2]:
         return o[2]
-    regs = dict(o[3])
-    # base register: a register with scale 1; ebp/esp/bp as base select ss
-    for r in ("ebp", "esp", "bp"):
-        if regs.get(r) == 1:
-            # [ebp*1+...] with another scale-1 register is ambiguous in text; the references print the base first
-            return "ss"
-    return "ds"
+    return "ss" if ("@stack-base", 1) in o[3] else "ds"
 
 
 def width_hint(ins):
@@ -397,7 +403,7 @@ def diff(a, b, opsize16=False):
                 return ("operand%d-size" % i, "%d vs %d" % (x[1], y[1]))
             if eff_seg(x) != eff_seg(y):
                 return ("operand%d-segment" % i, "%s vs %s" % (eff_seg(x), eff_seg(y)))
-            if x[3] != y[3]:
+            if plain_regs(x[3]) != plain_regs(y[3]):      # which register is the base matters only through the effective segment, judged above
                 return ("operand%d-base/index/scale" % i, "%s vs %s" % (sorted(x[3]), sorted(y[3])))
             a16 = any(r in REG16 for r, s in x[3]) or any(r in REG16 for r, s in y[3])
             m = 0xFFFF if a16 else 0xFFFFFFFF
